@@ -424,9 +424,10 @@ def unit_extrap(method, mode, n=4):
                 prove_sub(tag + ":outside_value_is_the_callable_at_the_query", out.a[p] == z3.Function("g", z3.RealSort(), z3.RealSort())(q.a[p]))
             else:
                 # mapped into the range: find the position handed to the interpolation
-                c.check(tag + ":interpolation_called_once_on_all_queries", len(seen) == 1 and seen[0].shape == (nq,))
                 if not (len(seen) == 1 and seen[0].shape == (nq,)):
-                    return
+                    # the harness observes the mapped positions as the argument of the single interpolation call; another
+                    # (equally valid) structure of the code is not a violation: undecided, the concrete oracle decides
+                    raise OutOfSubset("mapped positions are not observable (interpolation called %d times)" % len(seen))
                 pos = seen[0].a[p]
                 u = (q.a[p] - xa[0]) / L
                 # the code's own normalised position (a named quotient) is this u: identified syntactically after the
